@@ -216,4 +216,47 @@ theorem isortL_eq_sortAsc (l : List (Int × α)) (hn : (l.map (·.1)).Nodup) : i
   have hn' : ((Spec.sortAsc l).map (·.1)).Nodup := ((sortAsc_perm l).map _).nodup_iff.mpr hn
   exact (sorted_unique (strict_of_sorted_nodup (sortAsc_sorted l) hn') (isortL_sorted l) hp).symm
 
+/-! ### the buckets in terms of the reference's selectors -/
+
+theorem nonnegOf_eq_sel (l : List (Option Int × α)) : nonnegOf l = l.filterMap Spec.selNonneg := by
+  induction l with
+  | nil => rfl
+  | cons e l ih =>
+    obtain ⟨p, x⟩ := e
+    simp only [nonnegOf, filterMap_cons, Spec.selNonneg] at ih ⊢
+    cases p with
+    | none => simpa using ih
+    | some p =>
+      by_cases hp : p < 0
+      · have : ¬ 0 ≤ p := by omega
+        simp [hp, this, ih]
+      · have : 0 ≤ p := by omega
+        simp [hp, this, ih]
+
+theorem nonneg_keys_sublist (l : List (Option Int × α)) :
+    Sublist ((nonnegOf l).map (·.1)) (l.filterMap (·.1)) := by
+  induction l with
+  | nil => simp [nonnegOf]
+  | cons e l ih =>
+    obtain ⟨p, x⟩ := e
+    cases p with
+    | none => simpa [nonnegOf] using ih
+    | some p =>
+      by_cases hp : p < 0
+      · simpa [nonnegOf, hp] using ih.cons p
+      · simpa [nonnegOf, hp] using ih.cons_cons p
+
+theorem neg_keys_sublist (l : List (Option Int × α)) :
+    Sublist ((negOf l).map (·.1)) (l.filterMap (·.1)) := by
+  induction l with
+  | nil => simp [negOf]
+  | cons e l ih =>
+    obtain ⟨p, x⟩ := e
+    cases p with
+    | none => simpa [negOf] using ih
+    | some p =>
+      by_cases hp : p < 0
+      · simpa [negOf, hp] using ih.cons_cons p
+      · simpa [negOf, hp] using ih.cons p
+
 end PydraModel.Argv
